@@ -4,20 +4,20 @@ CONSTANTS
   Timeout = 5
   Rto0 = 2
   Gran = 1
-  Rm = 4
-  Rc = 5
-  MaxTx = 1
-  MaxSends = 1
+  Rm = 2
+  Rc = 3
+  MaxTx = 2
+  MaxSends = 2
   MaxInd = 0
-  Mech = "none"
+  Mech = "st"
   Preset = "none"
   UseFp = FALSE
-  Dts = {0, 1, 2, 3, 5, 20, 39}
-  StaleTicks = 100000
-  MaxNow = 86
+  Dts = {0, 2, 11}
+  StaleTicks = 6
+  MaxNow = 40
   FixD1 = TRUE
   SimDepth = 0
-  Msgs <- MsgsSched
+  Msgs <- MsgsStSmall
   Apps <- AppsSmall
 CONSTRAINT TimeBound
 VIEW view
@@ -25,4 +25,5 @@ INVARIANT NoMonitorRejects
 INVARIANT OneTimerPerRequest
 INVARIANT TimersAreForPending
 INVARIANT Capacity
+INVARIANT MarkersArePending
 CHECK_DEADLOCK FALSE
